@@ -601,7 +601,7 @@ def oracle_clock(c, counts, code):
             if jj == j:
                 cands.append((j, i, v))
         return delta(sorted(cands)[-1][2], tpb)
-    prev_d = d0
+    prev_d, prev_big = d0, d0
     # segment before the first event: exact closed form
     for j in range(0, bounds[0]):
         want = (ts[j] - ts[0]) // d0
@@ -612,6 +612,12 @@ def oracle_clock(c, counts, code):
         j1 = bounds[k + 1]
         base_t = ts[j0]
         big = max([prev_d, d] + durs_at(j0))       # every duration that was in force during the change wake-up
+        if k > 0 and counts[j0] == counts[cur_events[k - 1]]:
+            # no tick has been delivered since the previous change: the "next tick" after this change is still the next
+            # tick after that one, and its deadline was placed with the durations in force then (a change made in a
+            # tick callback in mid-burst to a much slower tempo, then two quick changes between wake-ups)
+            big = max(big, prev_big)
+        prev_big = big
         lo, hi, lo_strict = base_t - big, base_t + 2 * big, True
         for j in range(j0 + 1, j1):
             n = counts[j] - counts[j0]
